@@ -123,7 +123,8 @@ impl AsStr for &Addr { open spec fn sv(&self) -> Seq<char> { (*self)@ } }
 
 // ---------------------------------------------------------------- errors (dependency types)
 pub struct StdError { pub tag: Ghost<int> }
-pub struct OverflowError { pub tag: Ghost<int> }
+pub enum OverflowOperation { Add, Sub, Mul, Pow, Shr, Shl }
+pub struct OverflowError { pub operation: OverflowOperation }
 pub struct DivideByZeroError { pub tag: Ghost<int> }
 pub struct CheckedMultiplyRatioError { pub tag: Ghost<int> }
 pub struct CheckedMultiplyFractionError { pub tag: Ghost<int> }
@@ -161,6 +162,13 @@ macro_rules! std_error_from {
 } // verus!
 std_error_from!(OverflowError, DivideByZeroError, CheckedMultiplyRatioError, CheckedMultiplyFractionError, CheckedFromRatioError, ConversionOverflowError, Decimal256RangeExceeded, DecimalRangeExceeded);
 verus! {
+// ---------------------------------------------------------------- native u64 +/- (R11c)
+/// `a + b` / `a - b` on u64 panic on overflow (overflow-checks = true in the release profile): partial-correctness contract
+#[verifier::external_body]
+pub fn add_u64_(a: u64, b: u64) -> (r: u64) ensures a + b <= 0xffff_ffff_ffff_ffff, r == a + b { unimplemented!() }
+#[verifier::external_body]
+pub fn sub_u64_(a: u64, b: u64) -> (r: u64) ensures a >= b, r == a - b { unimplemented!() }
+
 // ---------------------------------------------------------------- unwrap (R11: `.unwrap()` -> `.unwrap_()`)
 /// `Option::unwrap` / `Result::unwrap` panic (abort the transaction) on None / Err: partial-correctness contract
 pub trait UnwrapExt<T>: Sized { fn unwrap_(self) -> T; }
@@ -203,7 +211,7 @@ pub broadcast axiom fn u64_str_injective(a: u64, b: u64)
 // ---------------------------------------------------------------- Timestamp (nanoseconds, u64)
 #[derive(Copy)]
 pub struct Timestamp { pub nanos: u64 }
-impl Clone for Timestamp { fn clone(&self) -> (r: Timestamp) ensures r == *self { *self } }
+impl View for Timestamp { type V = nat; open spec fn view(&self) -> nat { self.nanos as nat } }
 impl Timestamp {
     /// real code: `Timestamp(Uint64::new(s * 1_000_000_000))`; with overflow-checks = true a
     /// product above u64::MAX panics (transaction aborts) -> result unspecified in that case.
@@ -221,10 +229,7 @@ impl Timestamp {
     pub fn minus_seconds(&self, s: u64) -> (r: Timestamp)
         ensures (s as nat) * 1_000_000_000 <= self.nanos as nat, r.nanos as nat == (self.nanos as nat) - (s as nat) * 1_000_000_000
     { unimplemented!() }
-    pub fn lt(&self, o: &Timestamp) -> (r: bool) ensures r == (self.nanos < o.nanos) { self.nanos < o.nanos }
-    pub fn le(&self, o: &Timestamp) -> (r: bool) ensures r == (self.nanos <= o.nanos) { self.nanos <= o.nanos }
-    pub fn gt(&self, o: &Timestamp) -> (r: bool) ensures r == (self.nanos > o.nanos) { self.nanos > o.nanos }
-    pub fn ge(&self, o: &Timestamp) -> (r: bool) ensures r == (self.nanos >= o.nanos) { self.nanos >= o.nanos }
+
 }
 
 } // verus!
